@@ -81,6 +81,21 @@ CHECKS = {
    "After every operation exactly one of {own counter +1 (bytes + arg), overflow +1} happened, tracked <= limit, every getter equals the sum over rows, aggregated == per-client totals while no overflow; reporter per-address sums equal the sums of the snapshots it popped (model queue drops the oldest when full); a Server's recorded totals equal the datagrams actually sent and received.",
    "The recorder's canonical state is (rows, overflow); states are genuinely deduplicated for the count. One Reporter is reused per chunk of merge histories (cumulative model).",
    "DESIGN.md §3 C17"),
+ "C15": ("E-PROC+E-STATE+E-SCHED", "model_checking",
+   "exhaustive configuration product on the real binary (quick: all-pairs covering array), exhaustive health-check event histories on a real in-process Server, start-up schedules under a controlled scheduler",
+   "Every grid point starts the real server: alive, thread names worker-0..N-1, N distinct delegated keys answer authentic replies (so every worker serves), the health port returns the fixed bytes, no panic text; example.cfg verbatim. All sequences up to length 5 (thorough 6) over {connect_tcp, send, step} in-process: every accepted TCP connection served and closed, every request answered.",
+   "Quick tier covers all pairs of factor values, not the full product (thorough does). Worker coverage through SO_REUSEPORT relies on 48N+32 client sockets hitting all N sockets.",
+   "DESIGN.md §3 C15"),
+ "C16": ("E-PROC", "exploration",
+   "exhaustive boundary grid of (key,value) deviations from a valid base through the real make_config/is_valid_config (probe process) and the real server binary, file and ENV, against reference configuration semantics",
+   "Every grid point as one deviation (thorough: all pairs over numeric keys): refused, or accepted with every getter equal to the written value; in-range must be accepted; out-of-range, missing, unknown must be refused; file and ENV agree; the real binary refuses what the probe refuses and displays the probe's values.",
+   "Reference semantics of the documented keys are part of the harness (README table + ServerConfig docs). status_interval outside 1..=65535 and a few undocumented corners are 'either'.",
+   "DESIGN.md §3 C16"),
+ "C20": ("E-STATE+E-PROC", "model_checking",
+   "every execution of bounded event-history spaces (C09 histories, seed alphabet x log levels, datagram class pairs) and real-binary runs is scanned for the seed/scalar/expanded key in six encodings",
+   "All log records at every level Off..Trace (capturing logger), every datagram received, stdout/stderr of real server runs from file and ENV sources (accepted and refused configurations) are searched for the seed, the Ed25519 private scalar and the expanded key halves in raw, hex, HEX, base64, base64url and Debug-list form; a planted-seed self-test guards against a blind scanner.",
+   "Seeds are a structured alphabet. Secrets at a shifted alignment inside a larger base64 blob are not searched for.",
+   "DESIGN.md §3 C20"),
 }
 
 PENDING_REASON = "check not built yet in this session (planned, see DESIGN.md §3); no claim is made until it is"
